@@ -60,6 +60,11 @@ func ParseTokenIntrospectionRequest(r *http.Request, introspector Introspector) 
 	if !authenticated {
 		return "", "", oidc.ErrInvalidClient().WithParent(ErrNoClientCredentials)
 	}
+	// like the Server router: an empty secret is no credential, whatever the storage makes of it
+	// (a storage that compares secrets directly matches it for every client stored without one)
+	if _, secret, ok := r.BasicAuth(); ok && secret == "" && r.Form.Get("client_assertion") == "" {
+		return "", "", oidc.ErrInvalidClient().WithParent(ErrNoClientCredentials)
+	}
 
 	req := new(oidc.IntrospectionRequest)
 	err = introspector.Decoder().Decode(req, r.Form)
